@@ -204,6 +204,7 @@ class Gen:
         w = self.weights
         kinds = [
             ("new", 6), ("like", 10), ("transport", 18), ("arith", 16 * w.get("arith", 1)), ("scalar", 5), ("eq", 5), ("eq_magnitude_gap", 2 * w.get("arith", 1)), ("obs_bigint", 1 * w.get("arith", 1)), ("obs_loss_near", 2 * w.get("loss", 1)),
+            ("obs_x64", 1 * max(w.get("loss", 1), w.get("arith", 1), w.get("relayout", 1))),
             ("append", 5), ("concat", 6), ("concat_empty", 2), ("concat_inverse", 5), ("expand", 4), ("combine", 4), ("reshape_pmap", 4),
             ("vector_rt", 4 * w.get("relayout", 1)), ("scalar_rt", 4 * w.get("relayout", 1)), ("images_rt", 3 * w.get("relayout", 1)),
             ("subset", 3), ("get_one", 2), ("copy", 2), ("empty", 1), ("mismatch", 2),
@@ -320,6 +321,10 @@ class Gen:
     def g_obs_loss_near(self):
         self.emit({"op": "obs_loss_near", "vseed": self.rng.getrandbits(24), "offset": self.rng.choice([0.0, 30.0, 300.0]), "err": self.rng.choice([1e-2, 1e-1, 1.0]),
                    "n_steps": self.rng.choice([1, 2]), "swap": self.rng.random() < 0.5})
+
+    def g_obs_x64(self):
+        self.emit({"op": "obs_x64", "vseed": self.rng.getrandbits(24), "offset": self.rng.choice([0.0, 1.0, 1000.0]), "err_exp": self.rng.choice([-8, -10, -12]),
+                   "n_steps": self.rng.choice([1, 2]), "swap": self.rng.random() < 0.5, "transport": self.rng.choice(["none", "tree", "jit"])})
 
     def g_mismatch(self):
         """operands holding different sets of types must be rejected"""
@@ -741,7 +746,7 @@ def _apply_ref(op: dict, refs: dict, D: int) -> bool:
         nr.blocks[t] = nb
         refs[op["reg"]] = nr
         return True
-    if o in ("obs_bigint", "obs_loss_near"):
+    if o in ("obs_bigint", "obs_loss_near", "obs_x64"):
         return D >= 1
     if o == "empty":
         _need(refs, op["a"])
@@ -1135,7 +1140,7 @@ PROP_OF = {
     "transport": ("C13", "transport"), "copy": ("C13", "copy"), "empty": ("C13", "empty"), "vector_rt": ("C13", "vector_roundtrip"), "scalar_rt": ("C13", "scalar_roundtrip"),
     "images_rt": ("C13", "images_roundtrip"), "concat": ("C13", "concat"), "concat_inverse": ("C13", "concat_inverse"), "expand": ("C13", "expand"),
     "combine_axes": ("C13", "combine_axes"), "merge_axes": ("C13", "merge_axes"), "reshape_pmap": ("C13", "reshape_pmap"),
-    "new": ("C13", "construct"), "new_shaped": ("C13", "construct"), "append": ("C13", "append"), "setitem": ("C13", "setitem"), "obs_bigint": ("C12", "integer_arithmetic"), "obs_loss_near": ("C18", "definition_near_target"), "get_subset": ("C13", "subset"), "get_one": ("C13", "subset"),
+    "new": ("C13", "construct"), "new_shaped": ("C13", "construct"), "append": ("C13", "append"), "setitem": ("C13", "setitem"), "obs_bigint": ("C12", "integer_arithmetic"), "obs_loss_near": ("C18", "definition_near_target"), "obs_x64": ("C18", "definition_float64"), "get_subset": ("C13", "subset"), "get_one": ("C13", "subset"),
     "drop": ("C13", "aliasing"), "obs_group": ("C14", "group_action"), "obs_norm": ("C14", "norm"), "obs_pool": ("C14", "average_pool"),
     "obs_component": ("C14", "get_component"), "obs_batch_component": ("C14", "batch_get_component"), "obs_images": ("C14", "to_images"), "loss": ("C18", "loss"),
 }
@@ -1263,6 +1268,8 @@ def _run_real(op, regs, refs_after, D, bump, viol, log):
                 fail("integer_arithmetic", {"op": "sub", "type": list(t), "dtype": str(np.asarray(diff[t]).dtype), "first_got": float(got.reshape(-1)[0]), "first_want": int(want.reshape(-1)[0])})
     elif o == "obs_loss_near":
         _loss_near(op, D, bump, fail, guarded)
+    elif o == "obs_x64":
+        _x64(op, D, bump, fail, guarded)
     elif o == "concat":
         a, b = regs[op["a"]], regs[op["b"]]
         regs[op["out"]] = guarded(lambda: a.concat(b, axis=op["axis"]), "concat")
@@ -1588,6 +1595,69 @@ def _loss_near(op, D, bump, fail, guarded):
     for name, got, want in checks:
         if not _close(got, want, rel=2e-3) or np.any(got < 0):
             fail("definition_near_target", {"which": name, "offset": op["offset"], "err": op["err"], "got": np.asarray(got).tolist(), "want": np.asarray(want).tolist()}, "C18")
+
+
+def _x64(op, D, bump, fail, guarded):
+    """The process runs with 64-bit types enabled (jax.enable_x64, a documented JAX mode) and the data are float64:
+    nothing in the statements restricts the element type, so arithmetic, round trips and losses must keep the
+    values they were given - a silent cast to float32 loses every difference below 1e-7 relative."""
+    rs = np.random.RandomState(op["vseed"])
+    types = [(0, 0), (1, 0), (2, 1)] if D >= 2 else [(0, 0), (0, 1)]
+    B, C, sp, n_steps = 2, 2, (2,) * D, op["n_steps"]
+    err = 2.0 ** (3.32 * op["err_exp"])  # about 10**err_exp
+    tgt = {t: op["offset"] + rs.normal(size=(B, C) + sp + (D,) * t[0]) for t in types}
+    prd = {t: tgt[t] + err * rs.normal(size=tgt[t].shape) for t in types}
+    bump("obs_x64")
+    with jax.enable_x64(True):
+        y = geom.MultiImage({t: jnp.asarray(v, dtype=jnp.float64) for t, v in tgt.items()}, D, True)
+        order = list(reversed(types)) if op["swap"] else types
+        x = geom.MultiImage({t: jnp.asarray(prd[t], dtype=jnp.float64) for t in order}, D, True)
+        if op["transport"] == "tree":
+            leaves, treedef = jax.tree_util.tree_flatten(x)
+            x = jax.tree_util.tree_unflatten(treedef, leaves)
+        elif op["transport"] == "jit":
+            x = jax.jit(lambda m: m)(x)
+        for t in types:
+            got = np.asarray(guarded(lambda: x[t], "getitem"))
+            if got.dtype != np.float64 or not np.array_equal(got, prd[t]):
+                fail("float64_transport", {"type": list(t), "transport": op["transport"], "dtype": str(got.dtype)}, "C13")
+        # arithmetic by type, exact in float64
+        for name, res, want in [
+            ("sub", guarded(lambda: x - y, "sub"), {t: prd[t] - tgt[t] for t in types}),
+            ("add", guarded(lambda: x + y, "add"), {t: prd[t] + tgt[t] for t in types}),
+            ("mul", guarded(lambda: x * 0.5, "mul"), {t: prd[t] * 0.5 for t in types}),
+            ("div", guarded(lambda: x / 4.0, "div"), {t: prd[t] / 4.0 for t in types}),
+        ]:
+            for t in types:
+                got = np.asarray(res[t])
+                if got.dtype != np.float64 or not np.array_equal(got, want[t]):
+                    fail("float64_arithmetic", {"op": name, "type": list(t), "dtype": str(got.dtype), "max_abs_dev": float(np.max(np.abs(got.astype(np.float64) - want[t])))}, "C12")
+        # lossless re-layouts
+        for name, back in [
+            ("vector", guarded(lambda: x.from_vector(x.to_vector(), x), "vector_rt")),
+            ("scalar", guarded(lambda: x.to_scalar_multi_image().from_scalar_multi_image(x.get_signature()), "scalar_rt")),
+            ("copy", guarded(lambda: x.copy(), "copy")),
+            ("expand_combine", guarded(lambda: x.expand(0, 1).combine_axes((0, 1)), "expand")),
+        ]:
+            for t in types:
+                got = np.asarray(back[t])
+                if got.dtype != np.float64 or not np.array_equal(got, prd[t]):
+                    fail("float64_roundtrip", {"pair": name, "type": list(t), "dtype": str(got.dtype)}, "C13")
+        # losses from the definition, in float64
+        ra, rb = RefMI.__new__(RefMI), RefMI.__new__(RefMI)
+        for r, blocks in ((ra, prd), (rb, tgt)):
+            r.blocks, r.D, r.is_torus = dict(blocks), D, (True,) * D
+        per_entry, per_step, normalized = _ref_losses(ra, rb, D, n_steps)
+        checks = [
+            ("smse", np.asarray(guarded(lambda: ml.smse_loss(x, y, reduce=None), "loss")), per_entry),
+            ("timestep", np.asarray(guarded(lambda: ml.timestep_smse_loss(x, y, n_steps, reduce=None), "loss")), per_step),
+            ("normalized", np.asarray(guarded(lambda: ml.normalized_smse_loss(x, y), "loss")), normalized.mean()),
+        ]
+    for name, got, want in checks:
+        got = np.asarray(got, dtype=np.float64)
+        want = np.asarray(want, dtype=np.float64)
+        if got.shape != want.shape or not np.all(np.abs(got - want) <= 1e-9 * np.abs(want) + 1e-300) or np.any(got < 0):
+            fail("definition_float64", {"which": name, "offset": op["offset"], "err": err, "got": got.tolist(), "want": want.tolist()}, "C18")
 
 
 # --------------------------------------------------------------------------- shrinking
